@@ -16,7 +16,7 @@ def main():
         if not os.path.exists(mp):
             continue
         m = json.load(open(mp))
-        note = (m.get('needs_to_manifest') or '').strip().splitlines()
+        note = [l for l in (m.get('needs_to_manifest') or '').strip().splitlines() if not l.startswith('Property:')]
         first = re.sub(r'^(Change|BONUS[^:]*):?\s*', '', note[0]) if note else ''
         if note and note[0].startswith('BONUS') and len(note) > 1:
             first = re.sub(r'^Change:\s*', '', note[1])
@@ -29,8 +29,10 @@ def main():
                     mm = re.search(r'replay=\S*/' + pid + r'-(\S+?)\.json( no-failing-input-found)?', l)
                     if mm:
                         where.append(mm.group(1) + (' (no concrete input)' if mm.group(2) else ' (replayed input)'))
-        det = 'caught' if m['detected'] else '**missed**'
-        print(f"| {m['seed_id']} | {m['property']} | {first} | {', '.join(m['check_results'])} | {det} ({'; '.join(res)}) | {'; '.join(dict.fromkeys(where))[:260]} |")
+        det = 'caught' if m['detected'] else ('not a violation under the statement as read (see note)' if m.get('judgement') else '**missed**')
+        if m.get('judgement'):
+            where.append(m['judgement'][:400])
+        print(f"| {m['seed_id']} | {m['property']} | {first} | {', '.join(m['check_results'])} | {det} ({'; '.join(res)}) | {'; '.join(dict.fromkeys(where))[:460]} |")
 
 
 if __name__ == '__main__':
